@@ -177,6 +177,18 @@ def to_py(t):
     return (t[1], [to_py(a) for a in t[2]])
 
 
+def py_defined(t):
+    """to_python is documented for proper lists only: False if t contains a '.'/2 cell
+    whose tail is neither a list cell nor []"""
+    if t[0] != 'f':
+        return True
+    if t[1] == '.' and len(t[2]) == 2:
+        tail = t[2][1]
+        if not (tail == NIL or (tail[0] == 'f' and tail[1] == '.' and len(tail[2]) == 2)):
+            return False
+    return all(py_defined(a) for a in t[2])
+
+
 def show(t):
     if t[0] == 'v':
         return '_V%d' % t[1]
